@@ -94,7 +94,7 @@ pub fn run(ctx: &Ctx) -> i32 {
                                     // residue: marker bytes of hidden leaves must not occur in the serialisation (markers are unique per position)
                                     let mut hid = vec![]; hidden_markers(&want, &mut hid);
                                     let mut vis = vec![]; visible_markers(&want, &mut vis);
-                                    for h in hid { if h.len() >= 3 && !vis.contains(&h) { acc.inc("residue_searches"); if find(&bytes, &h) {
+                                    for h in hid { if h.len() >= 9 && !vis.contains(&h) { acc.inc("residue_searches"); if find(&bytes, &h) {
                                         acc.viol(format!("C03|{mode}|{kind:?}|residue"), "content of a hidden element occurs in the serialised result", cid(), json!({"tree": m.show(), "marker": hex::encode(&h), "got": hex::encode(&bytes)})) } } }
                                 }
                             }
@@ -135,6 +135,6 @@ pub fn run(ctx: &Ctx) -> i32 {
         "rule": "case = (tree with unique leaf markers, target subset incl. one absent digest, mode, action) compared with the model's elision semantics + byte-exact encoding for Elide + marker residue search; plus all (placeholder, candidate) unelide pairs; non-trivial = the model result hides at least one element",
         "exhaustive": true,
         "bounds": {"tree_weight_marked": w, "tree_weight_reused_markers": if th { 6 } else { 5 }, "unelide_family": envs.len()}});
-    finish(ctx, acc, "exploration", cov, vec!["residue search looks for the dCBOR encoding of each hidden leaf (unique markers of >= 3 bytes)".into(),
+    finish(ctx, acc, "exploration", cov, vec!["residue search looks for the dCBOR encoding of each hidden leaf (unique markers of >= 9 bytes, so a coincidental occurrence in ciphertext or a digest is negligible)".into(),
         "for an already-obscured targeted element any obscured form with the same digest is accepted (bare digest required for the Elide action)".into()])
 }
